@@ -169,6 +169,18 @@ def switch_programs():
             p4 = dict(parent)
             p4['condition'] = py("rec('c', cv2)")
             yield p4, vars_ + [['cv2', 'bool', 2]], 'switch+condition:%d' % i
+    # a switch inside the matching case of another switch: every case belongs to the nearest switch
+    inner = {'tag': 'q', 'indent': 4, 'switch': py("rec('s2', sv2)"),
+             'children': [child('x', "rec('j0', 0)"), child('y', "rec('j1', 1)"), child('z', "rec('jd', default)")]}
+    kids = [{'tag': 'a', 'case': py("rec('k0', 0)"), 'children': ['A', inner, 'a']}, child('b', "rec('k1', 1)"),
+            child('c', "rec('kd', default)")]
+    yield ({'tag': 'p', 'indent': 2, 'switch': py("rec('s', sv)"), 'children': kids},
+           [['sv', 'int', 0], ['sv2', 'int', 1]], 'switch-nested')
+    rep_inner = {'tag': 'q', 'indent': 4, 'repeat': ['x', py("rec('r', seq)")], 'switch': py("rec('s2', x % 2)"),
+                 'children': [child('x', "rec('j0', 0)"), child('y', "rec('jd', default)")]}
+    kids = [child('b', "rec('k1', 1)"), {'tag': 'a', 'case': py("rec('kd', default)"), 'children': ['A', rep_inner, 'a']}]
+    yield ({'tag': 'p', 'indent': 2, 'switch': py("rec('s', sv)"), 'children': kids},
+           [['sv', 'int', 0], ['seq', 'lenN', 1]], 'switch-nested-in-repeat')
     # the switch value depends on the loop variable of the same element (implementation order only: the
     # documented order would evaluate it before the loop variable exists)
     kids = [child('a', "rec('k0', 0)"), child('b', "rec('k1', 1)"), child('c', "rec('kd', default)")]
@@ -188,6 +200,11 @@ def restore_programs():
     dr = {'tag': 'p', 'indent': 2, 'define': [['local', 'x', py("rec('d', dv)")]], 'repeat': ['x', py("rec('r', seq)")],
           'children': [probe('x', 'in')]}
     yield [dr, probe('x', 'after')], [['dv', 'int', 5], ['seq', 'lenN', 1], ['x', 'maybe3', 0]], 'restore:define+repeat'
+    # the iterable of a loop is evaluated before the loop variable is bound: it may mention its own name
+    own = {'tag': 'p', 'indent': 2, 'repeat': ['x', py("rec('r', x)")], 'children': [probe('x', 'in')]}
+    yield [own, {'tag': 'u', 'children': ['after=', {'interp': py('len(x)')}]}], [['x', 'iter:list', 0]], 'restore:repeat-over-own-name'
+    own2 = {'tag': 'p', 'indent': 2, 'repeat': [['x', 'y'], py("rec('r', x)")], 'children': [probe('x', 'in'), probe('y', 'in2')]}
+    yield [own2, {'tag': 'u', 'children': ['after=', {'interp': py('len(x)')}]}], [['x', 'iter:pairs', 0]], 'restore:tuple-repeat-over-own-name'
     # the same multi-name target on nested elements and on define + repeat of one element
     inner = {'tag': 'q', 'indent': 4, 'repeat': [['x', 'y'], py('pairs')], 'children': [probe('x', 'in2')]}
     outer = {'tag': 'p', 'indent': 2, 'repeat': [['x', 'y'], py('pairs')], 'children': [probe('x', 'in'), inner, probe('y', 'in3')]}
